@@ -76,11 +76,9 @@ func (d Decimal) Ceil(dp int) Decimal {
 			return zero(d.Signbit())
 		}
 
-		if dp > maxBiasedExponent {
-			return inf(false)
-		}
-
-		return compose(false, uint128{1, 0}, int16(dp))
+		// the least multiple not below d is 10**-dp itself
+		sig = uint128{1, 0}
+		iexp = dp
 	}
 
 	var trunc int8
@@ -127,7 +125,15 @@ func (d Decimal) Ceil(dp int) Decimal {
 			return zero(neg)
 		}
 
-		return inf(neg)
+		// the multiple may still be representable with a longer coefficient
+		for exp > maxBiasedExponent && sig[1] <= 0x0002_7fff_ffff_ffff/10 {
+			sig = sig.mul64(10)
+			exp--
+		}
+
+		if exp > maxBiasedExponent {
+			return inf(neg)
+		}
 	}
 
 	return compose(neg, sig, exp)
@@ -171,11 +177,9 @@ func (d Decimal) Floor(dp int) Decimal {
 			return zero(d.Signbit())
 		}
 
-		if dp > maxBiasedExponent {
-			return inf(true)
-		}
-
-		return compose(true, uint128{1, 0}, int16(dp))
+		// the greatest multiple not above d is -10**-dp itself
+		sig = uint128{1, 0}
+		iexp = dp
 	}
 
 	var trunc int8
@@ -222,7 +226,15 @@ func (d Decimal) Floor(dp int) Decimal {
 			return zero(neg)
 		}
 
-		return inf(neg)
+		// the multiple may still be representable with a longer coefficient
+		for exp > maxBiasedExponent && sig[1] <= 0x0002_7fff_ffff_ffff/10 {
+			sig = sig.mul64(10)
+			exp--
+		}
+
+		if exp > maxBiasedExponent {
+			return inf(neg)
+		}
 	}
 
 	return compose(neg, sig, exp)
@@ -291,7 +303,15 @@ func (d Decimal) Round(dp int, mode RoundingMode) Decimal {
 			return zero(neg)
 		}
 
-		return inf(neg)
+		// the multiple may still be representable with a longer coefficient
+		for exp > maxBiasedExponent && sig[1] <= 0x0002_7fff_ffff_ffff/10 {
+			sig = sig.mul64(10)
+			exp--
+		}
+
+		if exp > maxBiasedExponent {
+			return inf(neg)
+		}
 	}
 
 	return compose(neg, sig, exp)
